@@ -955,8 +955,32 @@ theorem epilogueLoop_ok (s : Sample) : sampleLoopOK (epilogueLoop s) = true := b
     apply sampleLoopOK_of s s.hasData s.floop s.lps s.lpe s.len rfl rfl rfl rfl rfl
     intro hh
     simp only [Bool.and_eq_true, Bool.or_eq_true, decide_eq_true_eq, not_and, not_or] at hc hh
-    have := hc hh
+    obtain ⟨⟨⟨a1, a2⟩, a3⟩, a4⟩ := hc hh.1
+    have a5 := a4 hh.2
     omega
+
+theorem epilogueLoop_range (s : Sample) : sampleRangeOK (epilogueLoop s) = true := by
+  unfold epilogueLoop
+  split
+  · simp only [sampleRangeOK, Bool.or_eq_true, Bool.not_eq_true', Bool.and_eq_true, decide_eq_true_eq]
+    by_cases hl : s.len < 0
+    · left; right; exact hl
+    · right; exact ⟨⟨⟨by omega, by omega⟩, by omega⟩, by left; trivial⟩
+  · rename_i hc
+    simp only [Bool.and_eq_true, Bool.or_eq_true, decide_eq_true_eq, not_and, not_or] at hc
+    simp only [sampleRangeOK, Bool.or_eq_true, Bool.not_eq_true', Bool.and_eq_true, decide_eq_true_eq]
+    cases hd : s.hasData with
+    | false => left; left; rfl
+    | true =>
+      obtain ⟨⟨⟨a1, a2⟩, a3⟩, a4⟩ := hc hd
+      right
+      refine ⟨⟨⟨by omega, by omega⟩, by omega⟩, ?_⟩
+      cases hf : s.floop with
+      | false => left; rfl
+      | true =>
+        right
+        have a5 := a4 hf
+        omega
 
 theorem loop_core (s : Sample) (sus sue : Int) :
     sampleLoopOK (if sus ≥ s.len ∨ sus ≥ sue then
@@ -982,5 +1006,30 @@ theorem sampleLoops_of {m a : Module} (hsmp : m.smp = clampC a.smp 0 maxSamples)
     cases a.xtra[i]? with
     | none => exact epilogueLoop_ok s0
     | some x0 => simp only; rw [epilogueSmp_loopOK]; exact epilogueLoop_ok s0
+
+theorem range_core (s : Sample) (sus sue : Int) :
+    sampleRangeOK (if sus ≥ s.len ∨ sus ≥ sue then
+       (({ s with fsloop := false, fsloopBidir := false } : Sample), ({ sus := 0, sue := 0 } : Xtra))
+     else (s, { sus := sus, sue := sue })).1 = sampleRangeOK s := by
+  split <;> rfl
+
+theorem epilogueSmp_rangeOK (s : Sample) (x : Xtra) : sampleRangeOK (epilogueSmp s x).1 = sampleRangeOK s := by
+  unfold epilogueSmp
+  exact range_core s _ _
+
+theorem sampleRanges_of {m a : Module} (hsmp : m.smp = clampC a.smp 0 maxSamples)
+    (hxxs : m.xxs = a.xxs.mapIdx (smpStepS (clampC a.smp 0 maxSamples) a.xtra)) : sampleRangesOK m = true := by
+  unfold sampleRangesOK
+  rw [allBelow_iff]
+  intro i hi
+  rw [hxxs, List.getElem?_mapIdx]
+  have hlt : (i : Int) < clampC a.smp 0 maxSamples := by omega
+  cases a.xxs[i]? with
+  | none => rfl
+  | some s0 =>
+    simp only [Option.map_some, smpStepS, hlt, if_true]
+    cases a.xtra[i]? with
+    | none => exact epilogueLoop_range s0
+    | some x0 => simp only; rw [epilogueSmp_rangeOK]; exact epilogueLoop_range s0
 
 end Xmp.LoadPost
